@@ -92,6 +92,9 @@ def cases(draw):
                                 "front": draw(st.booleans())})
         # and the other family's id keyword inside a retrievable document, naming ANOTHER document's URL
         w["doc_foreign_id"] = draw(st.booleans())
+        # ... and on a subschema that merely ENCLOSES the target of a longer pointer, the target holding a
+        # fragment-only reference (which must keep meaning the root document)
+        w["enclosing_foreign_id"] = draw(st.integers(0, 2)) == 0
         return w
     d = draw(st.sampled_from(impl.DRAFTS))
     s = draw(GS.root_schemas(d, 8))
@@ -146,13 +149,13 @@ class C10(Prop):
             "value): names from the other drafts' keyword tables (minus the names this draft's keywords consult), "
             "annotations, later-specification keywords, unknown names, the other draft family's id keyword; values are "
             "'hot' (would reject almost everything if honoured) or arbitrary JSON.  In worlds, half of the cases put "
-            "the insertions next to $ref.  Errors before and after insertion must be equal as multisets of (keyword, "
+            "the insertions next to $ref, and some put the other family's id on a schema enclosing a reference target.  Errors before and after insertion must be equal as multisets of (keyword, "
             "path, schema path, instance, message except for not/oneOf/type/disallow, context recursively); exceptions "
             "must be equal too.  Non-trivial: >= 1 insertion applied and (the instance is invalid or a hot value was "
             "inserted).")
     ASSUMPTIONS = ["names consulted by the draft's own keywords (exclusiveMinimum/Maximum in 3/4, required in 3, "
                    "then/else in 7) and the draft's own id keyword are not foreign"]
-    GATES = {"kind:own-next-to-ref": 100, "kind:vocab": 300, "kind:other-id": 100, "kind:later": 100, "next-to-ref": 50, "hot": 300, "invalid": 300}
+    GATES = {"kind:own-next-to-ref": 100, "kind:vocab": 300, "kind:other-id": 100, "kind:later": 100, "next-to-ref": 50, "foreign-id-on-enclosing-schema": 40, "hot": 300, "invalid": 300}
     MIN_NONTRIVIAL = 300
 
     def strategy(self, tier):
@@ -209,6 +212,29 @@ class C10(Prop):
                                 instances=list(case["instances"]) + [{"fa": 1, "fb": 1}, {"fa": "a", "fb": None}])
                     applied += 1
                     res.labels.append("foreign-id-in-document")
+            if case.get("enclosing_foreign_id") and isinstance(base.get("properties", {}), dict) and isinstance(
+                    base.get("definitions"), dict) and "enc" not in base["definitions"]:
+                other = "$id" if d <= 4 else "id"
+                both = [(n, u) for u in sorted(case["docs"]) for n in sorted(base["definitions"])
+                        if isinstance(case["docs"][u], dict) and isinstance(case["docs"][u].get("definitions"), dict)
+                        and n in case["docs"][u]["definitions"] and case["via"].get(u) in ("store", "handler")]
+                if both:
+                    from ..oracle import pointer as optr
+                    n, u = both[0]
+                    base = copy.deepcopy(base)
+                    s2 = copy.deepcopy(s2)
+                    for sch, foreign in ((base, False), (s2, True)):
+                        enc = {"definitions": {"in": {"$ref": "#" + optr.encode(["definitions", n])}}}
+                        if foreign:
+                            enc[other] = u
+                        sch["definitions"]["enc"] = enc
+                        sch.setdefault("properties", {})
+                        sch["properties"] = dict([("fe", {"$ref": "#/definitions/enc/definitions/in"})],
+                                                 **dict((k, v) for k, v in sch["properties"].items() if k != "fe"))
+                    case = dict(case, root=base, instances=list(case["instances"]) + [
+                        {"fe": 1}, {"fe": "a"}, {"fe": None}, {"fe": []}, {"fe": {}}, {"fe": "abc"}, {"fe": 2.5}])
+                    applied += 1
+                    res.labels.append("foreign-id-on-enclosing-schema")
             if case.get("ref_siblings") and applied:
                 res.labels.append("next-to-ref")
             xs = case["instances"]
